@@ -381,6 +381,17 @@ unsafe fn check_guards(base: *mut u8, user: *mut u8, size: usize, base_off: usiz
 // ------------------------------------------------------------------------------------------
 // control API (called by the interpreters, never from inside the allocator)
 
+static INSTALLED: AtomicBool = AtomicBool::new(false);
+/// true when this allocator is the process's #[global_allocator] (the `vf` binary); the fuzz
+/// targets run without it and skip every ledger-based oracle
+pub fn set_installed(on: bool) {
+    INSTALLED.store(on, SeqCst);
+}
+#[inline]
+pub fn installed() -> bool {
+    INSTALLED.load(Relaxed)
+}
+
 pub fn set_passthrough(on: bool) {
     PASSTHROUGH.store(on, SeqCst);
 }
